@@ -174,6 +174,59 @@ Definition same_db (o : option Z) (dbi : Z) : bool := match o with Some n => n =
 Definition log_aof_in (s : server) (dbi : Z) (parts : list frame) : server :=
   log_aof (if same_db (aof_last_db (s_aof s)) dbi then s else log_aof s (aof_select dbi)) parts.
 
+(** which records a command leaves in the file (after the repairs a8393c5, f085462, 98d0d1a):
+    - a write command is appended as it was sent BEFORE it runs, except
+      SPOP and XADD with the ID * ([by_outcome]), and EVALSHA, whose record is the EVAL of the
+      cached script (the script cache is runner state: Model/RunLua.v h_evalsha writes it);
+    - SPOP / XADD * are appended AFTER they ran, in the deterministic form their reply determines
+      (SREM key members / XADD with the generated ID); nil, empty and error replies append nothing;
+    - after SET, SETEX, PSETEX, EXPIRE, PEXPIRE that did not answer an error, when the key (first
+      argument) carries a deadline, `PEXPIREAT key deadline` follows: ttl() + the clock. *)
+Definition by_outcome (name : bytes) (parts : list frame) : bool :=
+  beq name (bs "SPOP")
+  || (beq name (bs "XADD") && match nth_error parts 2 with Some (FBulk i) => beq i (bs "*") | _ => false end).
+Definition logs_before (name : bytes) (parts : list frame) : bool :=
+  bmem name write_commands && negb (by_outcome name parts) && negb (beq name (bs "EVALSHA")).
+Definition deterministic_form (name : bytes) (parts : list frame) (reply : frame) : option (list frame) :=
+  if beq name (bs "SPOP") then
+    match nth_error parts 1, reply with
+    | Some k, FBulk _ => Some [FBulk (bs "SREM"); k; reply]
+    | Some k, FArray (m :: ms) => Some (FBulk (bs "SREM") :: k :: m :: ms)
+    | _, _ => None
+    end
+  else
+    match parts, reply with
+    | a :: b :: _ :: rest, FBulk _ => Some (a :: b :: reply :: rest)
+    | _, _ => None
+    end.
+Definition ttl_recorded (name : bytes) : bool :=
+  beq name (bs "SET") || beq name (bs "SETEX") || beq name (bs "PSETEX") || beq name (bs "EXPIRE") || beq name (bs "PEXPIRE").
+Definition pexpireat_record (k : bytes) (deadline : Z) : list frame :=
+  [FBulk (bs "PEXPIREAT"); FBulk k; FBulk (print_int deadline)].
+(** the log after the command ran in database [dbi], whose state is then [d'] *)
+Definition aof_after (now : Z) (log : list (list frame)) (dbi : Z) (d' : db) (name : bytes) (parts : list frame)
+           (reply : frame) : list (list frame) :=
+  let log1 := if by_outcome name parts
+              then match deterministic_form name parts reply with
+                   | Some p => p :: (if same_db (aof_last_db log) dbi then log else aof_select dbi :: log)
+                   | None => log
+                   end
+              else log in
+  if ttl_recorded name && negb (match reply with FError _ => true | _ => false end) then
+    match nth_error parts 1 with
+    | Some (FBulk k) =>
+        match eng_ttl now d' k with
+        | Some rem => pexpireat_record k (now + rem)
+                        :: (if same_db (aof_last_db log1) dbi then log1 else aof_select dbi :: log1)
+        | None => log1
+        end
+    | _ => log1
+    end
+  else log1.
+Definition log_after (now : Z) (s : server) (dbi : Z) (d' : db) (name : bytes) (parts : list frame) (reply : frame) : server :=
+  {| s_dbs := s_dbs s; s_trk := s_trk s; s_conns := s_conns s; s_password := s_password s;
+     s_aof := aof_after now (s_aof s) dbi d' name parts reply; s_pubsub := s_pubsub s |}.
+
 (** a new connection is Authenticated at once when no password is configured (server.rs:443-448) *)
 Definition connect (s : server) (c : Z) : server :=
   set_conn s c (new_conn (match s_password s with None => true | Some _ => false end)).
@@ -181,6 +234,10 @@ Definition connect (s : server) (c : Z) : server :=
 (** str::trim on the ASCII subset *)
 Definition is_space (c : Z) : bool := (c =? 32) || ((9 <=? c) && (c <=? 13)).
 Definition trim (b : bytes) : bytes := rev (drop_while is_space (rev (drop_while is_space b))).
+
+(** commands that exist for the sake of the append-only file (98d0d1a): PEXPIREAT *)
+Definition exec_aofcmds (now : Z) (d : db) (name : bytes) (parts : list frame) : option (frame * db) :=
+  if beq name (bs "PEXPIREAT") then Some (h_pexpireat now d parts) else None.
 
 (** commands of process_normal_command that only need the selected database *)
 Definition exec_db (now : Z) (d : db) (name : bytes) (parts : list frame) (oracle : option frame)
@@ -199,8 +256,11 @@ Definition exec_db (now : Z) (d : db) (name : bytes) (parts : list frame) (oracl
   | None =>
   match exec_scan now d name parts oracle with
   | Some r => Some r
-  | None => exec_scripts now d name parts oracle
-  end end end end end.
+  | None =>
+  match exec_scripts now d name parts oracle with
+  | Some r => Some r
+  | None => exec_aofcmds now d name parts
+  end end end end end end.
 
 Definition h_randomkey (d : db) (parts : list frame) (oracle : option frame) : frame :=
   if negb (len parts =? 1) then r_err else
@@ -272,7 +332,7 @@ Definition dispatch_command (now : Z) (s : server) (c : Z) (dbi : Z) (parts : li
   | FBulk nm :: _ =>
       let name := upper nm in
       (* AOF: appended before dispatch whenever the name is a write command, with the database it runs in *)
-      let s := if mem_name name write_commands then log_aof_in s dbi parts else s in
+      let s := if logs_before name parts then log_aof_in s dbi parts else s in
       if beq name (bs "PING") then
         (match parts with _ :: a :: _ => a | _ => FSimple (bs "PONG") end, s)
       else if beq name (bs "ECHO") then
@@ -306,7 +366,7 @@ Definition dispatch_command (now : Z) (s : server) (c : Z) (dbi : Z) (parts : li
         match exec_db now d name parts oracle with
         | Some (r, d') =>
             let ms := marks_strings d d' name parts r ++ marks_lists d d' name parts r ++ marks_streams now d d' name parts r in
-            (r, set_trk (set_db s dbi d') dbi (mark_all (get_trk s dbi) ms))
+            (r, log_after now (set_trk (set_db s dbi d') dbi (mark_all (get_trk s dbi) ms)) dbi d' name parts r)
         | None => (FError (bs "ERR unknown command '" ++ name ++ bs "'"), s)
         end
   | _ => (r_err, s)
